@@ -25,13 +25,14 @@ EXTENDS Naturals, Sequences, FiniteSets, TLC, Json
 
 CONSTANTS MaxEdits, Dev, RawMode   \* RawMode: the honest tokens carry b64=false (+crit) in their protected header
 DevNames == {"OobNotVerified", "EmptyListVerifies", "B64FromUnprotected", "SigningInputRebuilt", "FalseNotRaised", "AnySigLength",
-             "UnprotectedAlgTrusted", "OnlyFirstSignatureChecked"}
+             "UnprotectedAlgTrusted", "OnlyFirstSignatureChecked", "UnsuitableKeyVerifies"}
 ASSUME Dev \subseteq DevNames
 
 Sers == {"compact", "flattened", "general"}
 EntryPoints == {"jws", "7797", "jwt"}
 Hdrs == {"H1", "H2", "R1", "X", "N"}
-SigsT == {"S1", "S2", "junk", "trunc", "ext", "empty"}
+\* S3: a signature over <<H1, text_1>> made with K3, a key that does not fit the algorithm named in H1 (an EC key on another curve)
+SigsT == {"S1", "S2", "junk", "trunc", "ext", "empty", "S3"}
 Unprots == {"none", "kid", "alg_same", "alg_other", "b64", "unknown"}
 
 \* payload text on the wire (strings naming octet strings)
@@ -81,7 +82,7 @@ Attack == EditHdr \/ EditSig \/ EditUnprot \/ EditText \/ DropEntry \/ DupEntry 
 \* ------------------------------------------------------------------ verifier (layer O)
 Present ==
   /\ phase = "attack"
-  /\ \E e \in EntryPoints, k \in {"K1", "K2"} :
+  /\ \E e \in EntryPoints, k \in {"K1", "K2", "K3"} :
        /\ (e = "jwt" => wire.ser = "compact")
        /\ (e = "7797" => wire.ser # "general")        \* rfc7797.deserialize_json is for flattened; general is delegated
        /\ ep' = e /\ key' = k
@@ -115,6 +116,7 @@ SigOk(e) ==
                 \/ (i = 1 /\ e.h = "R1" /\ "SigningInputRebuilt" \in Dev)
   IN \/ (i # 0 /\ hmatch /\ UsedText(e) = TextOf(i) /\ key = "K1")
      \/ ("AnySigLength" \in Dev /\ e.s \in {"trunc", "ext"} /\ e.h = "H1" /\ wire.text = TextOf(1) /\ key = "K1")
+     \/ ("UnsuitableKeyVerifies" \in Dev /\ e.s = "S3" /\ e.h = "H1" /\ UsedText(e) = TextOf(1) /\ key = "K3")
 
 VerifyEntry ==
   /\ phase = "verify" /\ idx <= NE
